@@ -27,6 +27,7 @@ CONSTANTS TreeSet,        \* the source trees the environment may switch between
           GcStopsOnUnreadableHunk,
           GcRefusesHeadlessNewest, \* a newest band directory without a tail makes gc refuse even when it has no head yet (TRUE in /repo:
                                \* a backup that has just made its directory looks exactly like that)
+          TailCarriesCount,    \* the tail states the version's hunk count (TRUE in /repo; releases before 0.6.4 did not)
           GcBandsBeforeBlocks, \* delete removes the versions' directories first, unreferenced blocks afterwards (TRUE in /repo)
           BkRechecksLock,   \* backup looks at the gc lock again after creating its band (TRUE since c3178ec)
           AllowConcurrent,  \* a backup and a delete/gc may run at the same time
@@ -45,7 +46,7 @@ vars == <<fs, src, bk, gc, snap, partial, cnt>>
 BlockPayload(c) == [st |-> "ok", es |-> <<>>, c |-> c, nok |-> TRUE, sok |-> TRUE, count |-> -1]
 HunkPayload(es) == [st |-> "ok", es |-> es, c |-> <<>>, nok |-> FALSE, sok |-> FALSE, count |-> -1]
 MarkPayload     == [st |-> "ok", es |-> <<>>, c |-> <<>>, nok |-> FALSE, sok |-> FALSE, count |-> -1]
-TailPayload(n)  == [MarkPayload EXCEPT !.count = n]
+TailPayload(n)  == [MarkPayload EXCEPT !.count = IF TailCarriesCount THEN n ELSE -1]
 
 Key(t, b, n, h) == [t |-> t, b |-> b, n |-> n, h |-> h, s |-> ""]
 
